@@ -1440,7 +1440,7 @@ Lemma resolve_true_post_refuted :
   exists fs m0 st', Resolvable fs m0 /\
     resolve_imports (fuel_bound fs empty_state) true fs empty_state m0 = Ok (true, st') /\
     has_unresolved_imports no_fixes (scan_fuel fs st' m0) st' m0 = Ok true /\
-    has_unresolved_imports {| fx_pop := true; fx_nullref := false; fx_placeholder_children := false |} (scan_fuel fs st' m0) st' m0 = Ok false.
+    has_unresolved_imports {| fx_pop := true; fx_nullref := false; fx_placeholder_children := false; fx_cycle_guard := false |} (scan_fuel fs st' m0) st' m0 = Ok false.
 Proof.
   exists fb_fs, fb_m0, (st_of (run1 fb_fs empty_state fb_m0)).
   split; [exact fb_resolvable|]. repeat split; vm_compute; reflexivity.
@@ -1453,7 +1453,7 @@ Lemma unresolved_test_crash_refuted :
   exists m0 st', resolve_imports (fuel_bound [] empty_state) true [] empty_state m0 = Ok (true, st') /\
                  has_unresolved_imports no_fixes (scan_fuel [] st' m0) st' m0 = Crash /\
                  flatten_precheck no_fixes (scan_fuel [] st' m0) st' m0 = Crash /\
-                 has_unresolved_imports {| fx_pop := false; fx_nullref := true; fx_placeholder_children := false |} (scan_fuel [] st' m0) st' m0 = Ok false.
+                 has_unresolved_imports {| fx_pop := false; fx_nullref := true; fx_placeholder_children := false; fx_cycle_guard := false |} (scan_fuel [] st' m0) st' m0 = Ok false.
 Proof.
   exists fc_m0, (st_of (run1 [] empty_state fc_m0)). repeat split; vm_compute; reflexivity.
 Qed.
@@ -1477,10 +1477,13 @@ Qed.
 Lemma flatten_precheck_cyclic_units_refuted :
   exists fs m0 st', resolve_imports (fuel_bound fs empty_state) true fs empty_state m0 = Ok (true, st') /\
                     issues_rev st' = [] /\
-                    forall fuel, flatten_precheck no_fixes fuel st' m0 = OutOfFuel.
+                    (forall fx fuel, flatten_precheck fx fuel st' m0 = OutOfFuel) /\
+                    has_unresolved_imports no_fixes (scan_fuel fs st' m0) st' m0 = OutOfFuel /\
+                    has_unresolved_imports head_fixes (scan_fuel fs st' m0) st' m0 = Ok true.
 Proof.
   exists k3_fs, k3_m0, k3_st. split; [vm_compute; reflexivity|]. split; [vm_compute; reflexivity|].
-  intros fuel. unfold flatten_precheck, has_import_issues.
+  split; [|split; vm_compute; reflexivity].
+  intros fx fuel. unfold flatten_precheck, has_import_issues.
   change (imported_units k3_m0) with [UImp "u" 0 "f1" "u"]. cbn [none_found].
   destruct fuel as [|f]; [reflexivity|].
   cbn [check_units_for_cycles].
@@ -1490,6 +1493,24 @@ Proof.
   cbv iota.
   change (find_units (m_units k3_f1) "u") with (Some (ULocal "u" ["u"])).
   cbv iota. rewrite k3_loop. reflexivity.
+Qed.
+
+(* 85ba0d4 (fx_cycle_guard): cyclic local units of the model itself, no import at all.  Before: hasUnresolvedImports and
+   flattenModel's pre-checks exhaust every stack; with the guard hasUnresolvedImports() = true (cyclic units count as
+   unresolved) and flattenModel returns null with the issue IMPORTER_UNRESOLVED_IMPORTS on the model *)
+Definition k3o_m0 := mdl "m" [ULocal "u" ["v"]; ULocal "v" ["u"]] [].
+
+Lemma cycle_guard_witness :
+  exists m0 st', resolve_imports (fuel_bound [] empty_state) true [] empty_state m0 = Ok (true, st') /\
+    has_unresolved_imports (no_fixes) (scan_fuel [] st' m0) st' m0 = OutOfFuel /\
+    flatten_precheck no_fixes (scan_fuel [] st' m0) st' m0 = OutOfFuel /\
+    has_unresolved_imports head_fixes (scan_fuel [] st' m0) st' m0 = Ok true /\
+    exists st'', flatten_precheck head_fixes (scan_fuel [] st' m0) st' m0 = Ok (false, st'') /\
+                 issues_rev st'' = [{| i_rule := R_UNRESOLVED_IMPORTS; i_item := ItModel |}].
+Proof.
+  exists k3o_m0, (st_of (run1 [] empty_state k3o_m0)).
+  split; [vm_compute; reflexivity|]. split; [vm_compute; reflexivity|]. split; [vm_compute; reflexivity|].
+  split; [vm_compute; reflexivity|]. eexists. split; vm_compute; reflexivity.
 Qed.
 
 (* ------------------------------------------------------------------------------------------ non-vacuity *)
@@ -1948,22 +1969,22 @@ Section ScanTotal.
   Lemma in_model_app : forall cm a b, in_model cm a -> in_model cm b -> in_model cm (a ++ b).
   Proof. intros cm a b Ha Hb u Hu. apply in_app_or in Hu. destruct Hu; auto. Qed.
 
-  Lemma referenced_units_total : forall fuel o cm u,
+  Lemma referenced_units_total : forall cyc fuel o cm u,
     owns o cm -> In u (m_units cm) -> urank o (uname u) < fuel ->
-    fine (in_model cm) (referenced_units fx fuel cm u).
+    fine (in_model cm) (referenced_units fx cyc fuel cm u).
   Proof.
-    induction fuel as [|f IH]; intros o cm u Ho Hin Hr; [lia|].
-    cbn [referenced_units]. destruct u as [n refs|n sid url ref]; [|intros u []].
+    intros cyc. induction fuel as [|f IH]; intros o cm u Ho Hin Hr; [lia|].
+    cbn [referenced_units]. destruct (cyc u); [intros x []|]. destruct u as [n refs|n sid url ref]; [|intros u []].
     match goal with |- fine _ (?F refs) =>
       assert (L : forall l, (forall r, In r l -> In r refs) -> fine (in_model cm) (F l)); [|apply L; auto] end.
     intros l. induction l as [|r rest IHl]; intros Hsub; [intros u []|].
     destruct (is_std r); [apply IHl; intros; apply Hsub; right; assumption|].
     destruct (find_units (m_units cm) r) as [ru|] eqn:Eru.
-    - assert (G : fine (in_model cm) (referenced_units fx f cm ru)).
+    - assert (G : fine (in_model cm) (referenced_units fx cyc f cm ru)).
       { apply IH with (o := o); auto.
         - eapply find_units_In; eauto.
         - pose proof (U_local _ _ _ _ _ _ Ho Hin (Hsub r (or_introl eq_refl)) Eru). cbn [uname] in Hr. lia. }
-      destruct (referenced_units fx f cm ru) as [l1| |]; cbn [fine] in G |- *; auto.
+      destruct (referenced_units fx cyc f cm ru) as [l1| |]; cbn [fine] in G |- *; auto.
       assert (G2 := IHl (fun x Hx => Hsub x (or_intror Hx))).
       match goal with |- fine _ (match ?X with _ => _ end) => destruct X as [l2| |] end; cbn [fine] in G2 |- *; auto.
       apply in_model_app; [exact G|].
@@ -1971,9 +1992,9 @@ Section ScanTotal.
     - destruct (fx_nullref fx); [|exact I]. apply IHl. intros; apply Hsub; right; assumption.
   Qed.
 
-  Lemma units_used_total : forall fuel o cm c, owns o cm -> Bu <= fuel -> fine (in_model cm) (units_used fx fuel cm c).
+  Lemma units_used_total : forall cyc fuel o cm c, owns o cm -> Bu <= fuel -> fine (in_model cm) (units_used fx cyc fuel cm c).
   Proof.
-    intros fuel o cm c Ho Hf. induction c as [n i used kids IHk] using comp_ind'. cbn [units_used].
+    intros cyc fuel o cm c Ho Hf. induction c as [n i used kids IHk] using comp_ind'. cbn [units_used].
     assert (Hv : fine (in_model cm)
               ((fix vars (l : list string) : res (list uref) :=
                   match l with
@@ -1981,7 +2002,7 @@ Section ScanTotal.
                   | n0 :: r =>
                     if is_std n0 then vars r
                     else match (match find_units (m_units cm) n0 with
-                                | Some mu => match referenced_units fx fuel cm mu with
+                                | Some mu => match referenced_units fx cyc fuel cm mu with
                                              | Ok l0 => Ok (l0 ++ [InModel mu])
                                              | other => other
                                              end
@@ -1994,10 +2015,10 @@ Section ScanTotal.
     { induction used as [|un r IHr]; [intros u []|].
       destruct (is_std un); [exact IHr|].
       destruct (find_units (m_units cm) un) as [mu|] eqn:Emu.
-      - assert (G : fine (in_model cm) (referenced_units fx fuel cm mu)).
+      - assert (G : fine (in_model cm) (referenced_units fx cyc fuel cm mu)).
         { apply referenced_units_total with (o := o); auto; [eapply find_units_In; eauto|].
           pose proof (U_bound o (uname mu)). lia. }
-        destruct (referenced_units fx fuel cm mu) as [l0| |]; cbn [fine] in G |- *; auto.
+        destruct (referenced_units fx cyc fuel cm mu) as [l0| |]; cbn [fine] in G |- *; auto.
         match goal with |- fine _ (match ?X with _ => _ end) => destruct X as [l2| |] end; cbn [fine] in IHr |- *; auto.
         apply in_model_app; [|exact IHr]. apply in_model_app; [exact G|].
         intros u [E|[]]. inversion E; subst. eapply find_units_In; eauto.
@@ -2008,13 +2029,13 @@ Section ScanTotal.
               ((fix go (l : list comp) : res (list uref) :=
                   match l with
                   | [] => Ok []
-                  | k :: r => match units_used fx fuel cm k with
+                  | k :: r => match units_used fx cyc fuel cm k with
                               | Ok a => match go r with Ok b => Ok (a ++ b) | other => other end
                               | other => other
                               end
                   end) kids)).
     { induction kids as [|k r IHr]; [intros u []|]. inversion IHk as [|k' r' Hk Hr]; subst.
-      destruct (units_used fx fuel cm k) as [a| |]; cbn [fine] in Hk |- *; auto.
+      destruct (units_used fx cyc fuel cm k) as [a| |]; cbn [fine] in Hk |- *; auto.
       specialize (IHr Hr).
       match goal with |- fine _ (match ?X with _ => _ end) => destruct X as [b| |] end; cbn [fine] in IHr |- *; auto.
       apply in_model_app; assumption. }
@@ -2026,6 +2047,7 @@ Section ScanTotal.
     (forall u, x = InModel u -> In u (m_units cm)) -> fine (fun _ => True) (uref_test fx fuel ty s m0 o cm x).
   Proof.
     intros fuel ty s o cm x Hs Ho Hf Hx. destruct x as [u|n]; cbn [uref_test]; [|destruct ty; exact I].
+    destruct (guarded fx s m0 o cm u); [exact I|].
     apply fine_res_map. apply (fine_weaken (fun _ => True)); [auto|].
     apply units_test_total; auto. pose proof (U_bound o (uname u)). lia.
   Qed.
@@ -2081,8 +2103,8 @@ Section ScanTotal.
       + eapply find_comp_sub; eauto.
       + pose proof (C_imp _ _ _ _ _ _ _ _ _ _ Ho Hin' El Eic). cbn [cname] in Hrk. lia.
     - intros c' _.
-      pose proof (units_used_total (S f) o cm c' Ho ltac:(lia)) as G.
-      destruct (units_used fx (S f) cm c') as [us| |]; cbn [fine] in G |- *; auto.
+      pose proof (units_used_total (guarded fx s m0 o cm) (S f) o cm c' Ho ltac:(lia)) as G.
+      destruct (units_used fx (guarded fx s m0 o cm) (S f) cm c') as [us| |]; cbn [fine] in G |- *; auto.
       apply fine_res_map. apply (fine_weaken (fun r => True)); [auto|].
       apply (all_ok_fine (fun _ => True)); [|exact I]. intros x Hx [] _. unfold unit_step.
       apply fine_res_map. apply (fine_weaken (fun _ => True)); [auto|].
@@ -2094,9 +2116,10 @@ Section ScanTotal.
     intros fuel ty s Hs Hf. unfold model_test.
     assert (Ho : owns None m0) by reflexivity.
     assert (G1 : fine (fun r => True)
-                   (all_ok (unit_step (fun u => res_map fst (units_test fx fuel ty s m0 None m0 [] u))) (m_units m0) tt)).
+                   (all_ok (unit_step (fun u => if guarded fx s m0 None m0 u then Ok false
+                                           else res_map fst (units_test fx fuel ty s m0 None m0 [] u))) (m_units m0) tt)).
     { apply (fine_weaken (fun r => True)); [auto|]. apply (all_ok_fine (fun _ => True)); [|exact I].
-      intros u Hu [] _. unfold unit_step. apply fine_res_map. apply fine_res_map.
+      intros u Hu [] _. unfold unit_step. apply fine_res_map. destruct (guarded fx s m0 None m0 u); [exact I|]. apply fine_res_map.
       apply (fine_weaken (fun _ => True)); [auto|]. apply units_test_total; auto.
       pose proof (U_bound None (uname u)). lia. }
     destruct (all_ok _ (m_units m0) tt) as [[b []]| |]; cbn [fine] in G1 |- *; auto.
